@@ -11,14 +11,18 @@
 (***************************************************************************)
 EXTENDS Naturals, Sequences, FiniteSets, TLC, Json
 
-Keys == {"kIdp1", "kIdp1b", "kIdp2", "kAttacker"}
-Layouts == {"sign", "sign2", "encOnly", "noUse", "signAndEnc", "noKeys", "absent"}
+\* "kBexp": a key whose certificate expired years ago
+Keys == {"kIdp1", "kIdp1b", "kIdp2", "kAttacker", "kBexp"}
+\* "signExpired": the signing certificate metadata holds for idp1 has expired.  It is still the only key metadata names for
+\* idp1: whatever the receiver makes of its dates, no other key becomes trusted in its place.
+Layouts == {"sign", "sign2", "encOnly", "noUse", "signAndEnc", "noKeys", "absent", "signExpired"}
 \* key descriptors (key, use) of idp1 per layout; "none" = no use attribute
 Descr(l) == CASE l = "sign"   -> {<<"kIdp1", "signing">>}
               [] l = "sign2"  -> {<<"kIdp1", "signing">>, <<"kIdp1b", "signing">>}
               [] l = "encOnly" -> {<<"kIdp1", "encryption">>}
               [] l = "noUse"  -> {<<"kIdp1", "none">>}
               [] l = "signAndEnc" -> {<<"kIdp1", "signing">>, <<"kIdp1b", "encryption">>}
+              [] l = "signExpired" -> {<<"kBexp", "signing">>}
               [] OTHER -> {}
 \* "idp1case": the identifier of idp1 in another letter case -- another entity, one that metadata does not know
 Issuers == {"idp1", "idp2", "unknown", "idp1case"}
@@ -32,7 +36,9 @@ Scn == [layout : Layouts, issuer : Issuers, signKey : Keys, embedded : Keys \cup
         \* priorEnc: the same metadata store was asked for the issuer's *encryption* certificates just before (as an entity
         \* does whenever it encrypts something for that peer).  What is trusted for signing does not depend on it.
         priorEnc : BOOLEAN]
-WellFormed(s) == /\ s.outer # "same" => s.level = "assertion" /\ s.outer # s.issuer
+WellFormed(s) == /\ (s.signKey = "kBexp" \/ s.embedded = "kBexp") => s.layout = "signExpired"
+                 /\ s.layout = "signExpired" => s.outer = "same" /\ ~s.priorEnc
+                 /\ s.outer # "same" => s.level = "assertion" /\ s.outer # s.issuer
                  /\ s.priorEnc => s.outer = "same" /\ s.layout \in {"signAndEnc", "encOnly", "sign"} /\ s.embedded = "none"
 
 VARIABLES scn, pc, certs, verdict
@@ -57,7 +63,8 @@ Verify == pc = "verify" /\ Done(IF scn.signKey \in certs THEN "accept" ELSE "rej
 MayAccept == \/ scn.signKey \in Trusted(scn.issuer)
              \/ (~scn.flag /\ Trusted(scn.issuer) = {} /\ scn.signKey = scn.embedded)
 MustReject == ~MayAccept
-MustAccept == scn.signKey \in Trusted(scn.issuer) /\ scn.outer = "same"
+\* (whether a signature under the expired certificate itself still counts is left open)
+MustAccept == scn.signKey \in Trusted(scn.issuer) /\ scn.outer = "same" /\ scn.signKey # "kBexp"
 
 Emit == /\ pc = "done" /\ pc' = "emitted"
         /\ PrintT(<<"CASE", ToJson([scn |-> scn, model |-> verdict, mustAccept |-> MustAccept, mustReject |-> MustReject,
